@@ -35,6 +35,7 @@ type scriptedServer struct {
 	getStatus   int                  // status for GET on Streamable (0 = serve a stream)
 	onStream    func(w scriptWriter) // called once the background stream is open
 	childExit   func()               // stdio: effect of the child process exiting
+	urlSuffix   string               // appended to the URL given to the client constructors (e.g. "?api_key=k")
 	gateConnect *hx.Flag             // legacy SSE: the server stalls before the headers of the connect GET until set
 	gateInit    *hx.Flag             // the server withholds its answer to initialize until set
 }
@@ -80,9 +81,9 @@ func (s *scriptedServer) client(opts ...mcp.ClientOption) (Client, error) {
 		s.childExit = exited
 		return c, err
 	case "ls":
-		return mcp.NewSSEClient("http://srv/sse", info, o...)
+		return mcp.NewSSEClient("http://srv/sse"+s.urlSuffix, info, o...)
 	default:
-		return mcp.NewClient("http://srv/mcp", info, o...)
+		return mcp.NewClient("http://srv/mcp"+s.urlSuffix, info, o...)
 	}
 }
 
